@@ -192,7 +192,9 @@ func serveUDPSocket(conn *net.UDPConn, addr *net.UDPAddr, inbound chan<- Service
 	// A closed inbound channel indicates to its readers that the worker has terminated.
 	defer close(inbound)
 
-	buffer := [1024]byte{}
+	// Large enough for any UDP datagram: a shorter buffer would silently cut frames (and the
+	// decoder does not compare the header's total length with what it was given).
+	buffer := [65536]byte{}
 
 	for {
 		len, sender, err := conn.ReadFromUDP(buffer[:])
